@@ -335,6 +335,11 @@ def r16_4(ctx):
                 return j
             if name == "move" and isinstance(recv, Obj) and recv._name == "JORDAN":
                 moved.append(args)
+                state.setdefault("ops", []).append("move")
+                return recv
+            if name == "scale" and isinstance(recv, Obj) and recv._name == "JORDAN":
+                state.setdefault("ops", []).append("scale")
+                state["scaled_by"] = args
                 return recv
             if name == "SimpleShape":
                 state["shape_of"] = args[0]
@@ -347,6 +352,10 @@ def r16_4(ctx):
             continue
         chain = state.get("chain", [])
         errs = []
+        ops = state.get("ops", [])
+        if "scale" in ops and "move" in ops and ops.index("move") < len(ops) - 1 - ops[::-1].index("scale"):
+            errs.append(f"the curve is scaled about the origin after it was moved to the centre: the centre ({centre[0]}, "
+                        f"{centre[1]}) ends up multiplied by {state.get('scaled_by')}")
         if len(chain) != n:
             errs.append(f"{len(chain)} arcs for ndivangle={n}")
         else:
